@@ -541,6 +541,9 @@ class GuardWalk:
                     if isinstance(val, (ast.Tuple, ast.List)) and i < len(val.elts):
                         return Sub(self.d - 1, self.bound).visit(copy.deepcopy(val.elts[i]))
                     base = Sub(self.d - 1, self.bound).visit(copy.deepcopy(val))
+                    if isinstance(base, (ast.Tuple, ast.List)) and i < len(base.elts) and \
+                            not any(isinstance(x, ast.Starred) for x in base.elts):
+                        return base.elts[i]
                     return ast.Subscript(base, ast.Constant(i), ast.Load())
                 return n
 
